@@ -103,10 +103,11 @@ def run(ctx, R, tier):
 
     # ---------------------------------------------------------------- R3 (shared with C14-R2)
     from ..report import Rules
+    from ..report import run_shared as _run_shared
     from . import c14
     R14 = Rules("C14")
     try:
-        c14.run(ctx, R14, tier)
+        _run_shared(ctx, c14, R14, tier)
     except AnalysisError as _shared_x:
         # the other property's own anchors are gone on this tree: its check reports that; what it produced before is still shared
         R.note("obligations shared from C14 are incomplete on this tree: %s" % _shared_x)
